@@ -327,7 +327,10 @@ class SimWatcher:
                     # a column "survives" if it is bitwise the old one on every path; columns sitting at the
                     # absorbing value 0 (QE scheme, psi > 1.5) are excluded: they coincide legitimately
                     same_cols = (ref[:, 1:tcommon] == new[:, 1:tcommon]).all(dim=0) & (new[:, 1:tcommon] != 0).any(dim=0)
-                    if bool(same_cols.any()) and not _constant(new):
+                    # one float32 value repeating on a single path is a ~1e-6 coincidence, and the search makes millions of
+                    # such comparisons (silence seed 319): demand two paths, or two columns of a single path
+                    enough = int(same_cols.sum()) >= (1 if ref.shape[0] >= 2 else 2)
+                    if enough and not _constant(new):
                         raise Violation(ID, "stale_columns", site, {"buffer": n, "columns_kept": same_cols}, seq)
         if self.expect is not None and self.lazy_pending and self.trigger == "fit":
             self.lazy_pending = False
